@@ -218,6 +218,9 @@ class Rewriter:
                 repl = ""
                 stmt = True
                 self.count("R1 log/trace macro deleted")
+            elif name == "log_enabled":
+                repl = "false"
+                self.count("R1 log_enabled! -> false (logging erased)")
             elif name in ("format", "format_args", "concat", "stringify"):
                 repl = "vx_msg()"
                 self.count("R2 format! -> vx_msg()")
